@@ -143,6 +143,53 @@ theorem crews_used (p : MethodP) (budget : Int) (hb : 0 ≤ budget) (n : Nat) (r
   have hl := h.len
   omega
 
+/-- **configured crews**: a mobile method configured with a positive `crew_count` has exactly that
+many crews -- not LDAR-Sim's own estimate, however large -- so on any day no more than the configured
+number of crews is deployed, every visit is made by a crew with id below it, and the crew-minutes of
+the day (travel + survey + trips home, summed over crews) are within `crew_count x budget` -/
+theorem configured_crews_bound (p : MethodP) (followUp : Bool) (configured estimate : Nat)
+    (hst : p.stationary = false) (hc : 0 < configured) (budget : Int) (hb : 0 ≤ budget)
+    (reqs : List Req) (hreq : ∀ r ∈ reqs, ReqOk p r) :
+    let d := deployConfigured p followUp configured estimate budget reqs
+    methodCrews p.stationary followUp configured estimate = configured ∧
+    d.crews.length = configured ∧ countDeployed d.crews ≤ configured ∧
+    (∀ o ∈ d.out, ∀ k, o.crew = some k → k < configured) ∧
+    (d.crews.map (fun c => crewMinutes c.id d.out + crewHome c.id d.out)).sum ≤ configured * budget := by
+  have hm : methodCrews p.stationary followUp configured estimate = configured := by
+    unfold methodCrews; simp [hst, hc]
+  simp only [deployConfigured, hm]
+  have hcu := crews_used p budget hb configured reqs hreq
+  have hbud := day_budget p budget hb configured reqs hreq
+  refine ⟨trivial, hcu.1, hcu.2.1, hcu.2.2, ?_⟩
+  have hlen := hcu.1
+  generalize (deployDay p budget configured reqs) = d at *
+  -- every summand is ≤ budget, and there are `configured` of them
+  have key : ∀ (cs : List CrewSt), (∀ c ∈ cs, crewMinutes c.id d.out + crewHome c.id d.out ≤ budget) →
+      (cs.map (fun c => crewMinutes c.id d.out + crewHome c.id d.out)).sum ≤ (cs.length : Int) * budget := by
+    intro cs
+    induction cs with
+    | nil => intro _; simp
+    | cons c cs ih =>
+      intro h
+      have h1 := h c (by simp)
+      have h2 := ih (fun x hx => h x (by simp [hx]))
+      simp only [List.map_cons, List.sum_cons, List.length_cons]
+      have : ((cs.length + 1 : Nat) : Int) * budget = (cs.length : Int) * budget + budget := by
+        rw [Int.natCast_add, Int.add_mul]; simp
+      omega
+  have := key d.crews hbud
+  rw [hlen] at this
+  exact this
+
+/-- what `crew_count` means in each case: stationary → one pseudo crew; positive → exactly that;
+0 → the estimate (1 for a follow-up method) -/
+theorem methodCrews_table (followUp : Bool) (configured estimate : Nat) :
+    methodCrews true followUp configured estimate = 1 ∧
+    (0 < configured → methodCrews false followUp configured estimate = configured) ∧
+    methodCrews false true 0 estimate = 1 ∧ methodCrews false false 0 estimate = estimate := by
+  unfold methodCrews
+  refine ⟨by simp, fun h => by simp [h], by simp, by simp⟩
+
 /-- weather, part 1: a site is visited only when its weather is workable, i.e. (when weather is
 considered) temperature, wind and precipitation are all inside the method's envelope -/
 theorem weather_visited (p : MethodP) (budget : Int) (n : Nat) (reqs : List Req) :
